@@ -110,6 +110,9 @@ WMul(a, b) == WMulR(a, b, 1)
 (* a * 2^n for any n >= 0 *)
 WShl(a, n) == WShiftLimbs(WMulLimb(a, Pow2(n % 15)), n \div 15)
 
+(* number of significant bits of a canonical wide natural (0 for 0) *)
+WBitLen(w) == IF Len(w) = 0 THEN 0 ELSE (Len(w) - 1) * 15 + BitLen(w[Len(w)])
+
 (* -1, 0, 1 as a < b, a = b, a > b (canonical operands) *)
 RECURSIVE WCmpR(_, _, _)
 WCmpR(a, b, i) == IF i = 0 THEN 0
